@@ -187,7 +187,7 @@ def stub_control(wd, progs, cases, rejects, nv, seed, model):
 def disk_phase(wd, progs, cases, nv, seed, tier, verdicts):
     """3b: the disk universe under every spelling of the main file, plus a corruption control."""
     dsel = [c for c in cases if c["disk"]]
-    cap = 400 if tier == "quick" else 2400
+    cap = 400 if tier == "quick" else 1200
     dsel = dsel[::max(1, -(-len(dsel) // cap))]
     if len(dsel) < 100:
         vlib.tool_error("vacuity: only %d configurations in the disk universe" % len(dsel))
